@@ -308,6 +308,13 @@ theorem nf_sound (w : World) (chk : Bool) (ctx : Ctx) (harg : ArgOk w ctx) :
       injection h with h; subst h
       have := den_cast w.raw w.fv (t := t) (ty := ty) hl
       exact ⟨.int ty (castBits t ty (den w.raw w.fv l)), by simp [eval, hvx], this.2, by rw [this.1]⟩
+    · rename_i s ha
+      obtain ⟨vx, hvx, rfl⟩ := iha σ ρ _ hσ ha
+      injection h with h; subst h
+      have hp := ty.bits_pos
+      refine ⟨.int ty (if s.eval w.raw w.fv then 1 else 0), by simp [eval, hvx], by simp [zeros]; omega, ?_⟩
+      simp only [den, den_zeros]
+      cases s.eval w.raw w.fv <;> simp
     · exact absurd h (by simp)
   | ite c a b ihc iha ihb =>
     intro σ ρ r hσ h
